@@ -464,7 +464,9 @@ def gen_eq(rng, stale):
     if want_arr and stale:      # the compiler creates anonymous types before the named types are initialised
         e = rng.choice(decls)
         arr = (F.op("A:%s:2" % e["h"]), e)
-    order = list(decls)
+    # a second declaration printed exactly like S0 with the same layout: a distinct dynamic type all the same
+    twin = {"h": F.newtype(25, "main.S0", True, "main"), "i": 0, "fs": decls[0]["fs"], "shape": decls[0]["shape"], "twin": True}
+    order = list(decls) + [twin]
     if stale:
         order.reverse() if rng.random() < 0.7 else rng.shuffle(order)
     anon = None
@@ -510,6 +512,9 @@ def gen_eq(rng, stale):
         F.op("k:" + arr[0])
     if anon:
         F.op("k:" + anon[0])
+    for _ in range(2):
+        sv = struct_val(decls[0], 0)
+        F.op("E:%s~%s:%s~%s" % (decls[0]["h"], sv, twin["h"], sv))
     for _ in range(rng.randrange(6, 14)):
         d = rng.choice(decls)
         v1 = "%s~%s" % (d["h"], struct_val(d, rng.randrange(3)))
@@ -897,12 +902,97 @@ def gen_program(rng, mode):
     return "\n".join(src + main) + "\n", tainted
 
 
+SAMPLE = """package main
+type A struct{ x int }
+func (a A) M() int { return 1 }
+func (a *A) P() int { return 2 }
+func (a A) u() int { return 3 }
+type B struct { A; *C; n int `k:"v"` }
+type C struct{ s []int }
+func (c *C) Q(a int, b ...string) (int, bool) { return 4, true }
+type I interface{ M() int; u() int }
+type N int
+func (n N) M() int { return int(n) }
+func main() {
+  var v interface{} = B{}
+  _, ok := v.(I)
+  println(ok)
+  var w interface{} = N(3)
+  _, ok = w.(interface{ M() int })
+  println(ok)
+  var z interface{} = struct{ A; q map[string][2]N }{}
+  _, ok = z.(I)
+  println(ok)
+  f := func() { type L struct{ B }; var y interface{} = &L{}; _, ok := y.(interface{ P() int }); println(ok) }
+  f()
+}
+"""
+
+
+def check_emission(chk):
+    """I-tie: the shape of the type declarations the compiler emits (decls.go:484-563, package.go:292-349) is what the
+    family scripts of tie (a) assume: `X = $newType(size, kind, string, named, pkg, exported, ctor)`, value-receiver methods
+    in `X.methods`, pointer-receiver methods in the pointer type's `.methods`, unexported names qualified by the package
+    path, `X.init(pkgPath, [{prop,name,embedded,exported,typ,tag}])`, all `.methods =` before all `.init(`."""
+    from . import progs
+    r = progs.run_jobs([{"id": "c09sample", "files": {"main.go": SAMPLE}, "variants": ["plain"], "native": True, "keep_js": True,
+                         "timeout": 120}])[0]
+    js = r["runs"]["plain"].get("js", "")
+    out = progs.observe_js(r["runs"]["plain"])
+    nat = progs.observe_native(r["runs"]["native"])
+    chk.add_case("emission-format", "sample", kindkey="emission-sample")
+    if out != nat:
+        chk.add_mismatch("programs", json.dumps({"id": "c09sample", "source": SAMPLE}), impl=str(out), spec=str(nat))
+    m = re.search(r'\bA = \$newType\(0, \$kindStruct, "main\.A", true, "([^"]+)", true, function\(x_\)', js)
+    if not m:
+        chk.add_tie_break("emission-format", "A = $newType(...)", "pattern not found", "A = $newType(0, $kindStruct, \"main.A\", true, <pkg>, true, function(x_)")
+        return
+    pk = re.escape(m.group(1))
+    F = r'\$funcType\(\[\], \[\$Int\], false\)'
+    pats = {
+        "N decl": r'\bN = \$newType\(4, \$kindInt, "main\.N", true, "%s", true, null\);' % pk,
+        "I decl": r'\bI = \$newType\(8, \$kindInterface, "main\.I", true, "%s", true, null\);' % pk,
+        "local L decl": r'\bL = \$newType\(0, \$kindStruct, "main\.L", true, "%s", true, function\(B_\)' % pk,
+        "A.methods (value receivers, unexported qualified)":
+            r'\bA\.methods = \[\{prop: "M", name: "M", pkg: "", typ: %s\}, \{prop: "u", name: "u", pkg: "%s", typ: %s\}\];' % (F, pk, F),
+        "ptr(A).methods (pointer receivers)": r'\b(ptrType(\$\d+)?)\.methods = \[\{prop: "P", name: "P", pkg: "", typ: %s\}\];' % F,
+        "ptr(C).methods variadic": r'\bptrType(\$\d+)?\.methods = \[\{prop: "Q", name: "Q", pkg: "", typ: \$funcType\(\[\$Int, sliceType(\$\d+)?\], \[\$Int, \$Bool\], true\)\}\];',
+        "N.methods": r'\bN\.methods = \[\{prop: "M", name: "M", pkg: "", typ: %s\}\];' % F,
+        "A.init": r'\bA\.init\("%s", \[\{prop: "x", name: "x", embedded: false, exported: false, typ: \$Int, tag: ""\}\]\);' % pk,
+        "B.init": r'\bB\.init\("%s", \[\{prop: "A", name: "A", embedded: true, exported: true, typ: A, tag: ""\}, '
+                  r'\{prop: "C", name: "C", embedded: true, exported: true, typ: ptrType(\$\d+)?, tag: ""\}, '
+                  r'\{prop: "n", name: "n", embedded: false, exported: false, typ: \$Int, tag: "k:\\"v\\""\}\]\);' % pk,
+        "I.init": r'\bI\.init\(\[\{prop: "M", name: "M", pkg: "", typ: %s\}, \{prop: "u", name: "u", pkg: "%s", typ: %s\}\]\);' % (F, pk, F),
+        "L.init (all exported: empty pkgPath)": r'\bL\.init\("", \[\{prop: "B", name: "B", embedded: true, exported: true, typ: B, tag: ""\}\]\);',
+        "anonymous interface": r'\binterfaceType(\$\d+)? = \$interfaceType\(\[\{prop: "M", name: "M", pkg: "", typ: %s\}\]\);' % F,
+        "anonymous struct": r'\bstructType(\$\d+)? = \$structType\("%s", \[\{prop: "A", name: "A", embedded: true, exported: true, typ: A, tag: ""\}, '
+                            r'\{prop: "q", name: "q", embedded: false, exported: false, typ: mapType(\$\d+)?, tag: ""\}\]\);' % pk,
+        "ptrType = $ptrType(A)": r'\bptrType(\$\d+)? = \$ptrType\(A\);',
+        "assert call": r'\$assertType\(v, I, true\)',
+    }
+    for name, rx in pats.items():
+        chk.add_case("emission-format", name, kindkey="emission-pattern")
+        if not re.search(rx, js):
+            chk.add_tie_break("emission-format", name, "pattern not found in the emitted JS", rx)
+    # ordering: $newType < .methods < .init
+    js = js[m.start():]      # the main package's section
+    pos_new = [mm.start() for mm in re.finditer(r'= \$newType\(\d+, \$kind\w+, "main\.', js)]
+    pos_m = [mm.start() for mm in re.finditer(r'\b(?:A|N|ptrType(?:\$\d+)?)\.methods = ', js)]
+    pos_i = [mm.start() for mm in re.finditer(r'\b(?:A|B|C|I|L)\.init\(', js)]
+    if not (pos_new and pos_m and pos_i and max(pos_new) < min(pos_m) and max(pos_m) < min(pos_i)):
+        chk.add_tie_break("emission-format", "order", "declaration / methods / init order changed", "$newType* < .methods* < .init*")
+    # the pointer type that carries P must be $ptrType(A)
+    mp = re.search(pats["ptr(A).methods (pointer receivers)"], js)
+    if mp and not re.search(r'\b%s = \$ptrType\(A\);' % re.escape(mp.group(1)), js):
+        chk.add_tie_break("emission-format", "ptr(A).methods target", "pointer-receiver methods not attached to $ptrType(A)", mp.group(1))
+
+
 def run_programs(chk, tier):
     from . import progs
     q = tier != "thorough"
-    counts = {"clean": 24 if q else 500, "amb": 4 if q else 60, "ptrshadow": 3 if q else 40, "fieldhide": 3 if q else 40,
-              "protoname": 2 if q else 30, "namedptr": 2 if q else 30, "memo": 4 if q else 60, "seenstr": 2 if q else 30,
-              "canon-embedded": 1 if q else 10, "canon-tag": 1 if q else 10, "cmp": 2 if q else 20, "recvcopy": 2 if q else 30}
+    counts = {"clean": 24 if q else 400, "amb": 4 if q else 50, "ptrshadow": 3 if q else 30, "fieldhide": 3 if q else 30,
+              "protoname": 2 if q else 25, "namedptr": 2 if q else 25, "memo": 4 if q else 50, "seenstr": 2 if q else 25,
+              "canon-embedded": 1 if q else 8, "canon-tag": 1 if q else 8, "cmp": 2 if q else 15, "recvcopy": 2 if q else 25}
     jobs, meta = [], []
     for mode, k in counts.items():
         for _ in range(k):
@@ -956,18 +1046,18 @@ def run_programs(chk, tier):
 def gen_all_families(rng, tier):
     q = tier != "thorough"
     fams = []
-    counts = {"clean": 60 if q else 1200, "amb": 25 if q else 400, "ptrshadow": 15 if q else 250, "fieldhide": 15 if q else 250,
-              "protoname": 10 if q else 150, "pkgname": 10 if q else 150, "namedptr": 8 if q else 120,
-              "seenstr": 15 if q else 250, "dupstring": 20 if q else 300}
+    counts = {"clean": 60 if q else 900, "amb": 25 if q else 300, "ptrshadow": 15 if q else 200, "fieldhide": 15 if q else 200,
+              "protoname": 10 if q else 120, "pkgname": 10 if q else 120, "namedptr": 8 if q else 100,
+              "seenstr": 15 if q else 200, "dupstring": 20 if q else 250}
     for mode, k in counts.items():
         for _ in range(k):
             fams.append(gen_universe(rng, mode))
-    for _ in range(60 if q else 1000):
+    for _ in range(60 if q else 800):
         fams.append(gen_ident(rng))
     for w in ("embedded", "tag", "pkgpath"):
         for _ in range(3 if q else 20):
             fams.append(gen_canon_witness(rng, w))
-    for _ in range(30 if q else 500):
+    for _ in range(30 if q else 400):
         fams.append(gen_eq(rng, False))
     for _ in range(15 if q else 200):
         fams.append(gen_eq(rng, True))
@@ -996,6 +1086,7 @@ def run(tier, seed):
     fams = gen_all_families(chk.rng, tier)
     chk.extra["families"] = len(fams)
     run_families(chk, fams, "prelude-types")
+    check_emission(chk)
     run_programs(chk, tier)
     return chk.finish()
 
